@@ -367,12 +367,13 @@ Proof.
 Qed.
 
 Lemma wloop_spec rl ii : forall n ds i,
-  gen_wdayset_loop1 rl ii n (ds, i) = wday_loop n (wdaymask ii) (wkst rl) ds i.
+  gen_wdayset_loop1 rl ii n (ds, i) = wday_loop n (wdaymask ii) (wkst rl) (yearordinal ii) ds i.
 Proof.
   induction n as [|n IH]; intros ds i; cbn [gen_wdayset_loop1 wday_loop]; [reflexivity|].
   destruct (py_set ds i (Some i)) as [ds'|e]; cbn [bind]; [|reflexivity].
   destruct (py_nth (wdaymask ii) (i + 1)) as [w|e]; cbn [bind]; [|reflexivity].
-  destruct (w =? wkst rl); [reflexivity|apply IH].
+  destruct (w =? wkst rl); [reflexivity|].
+  destruct (max_ord <? yearordinal ii + (i + 1)); [reflexivity|apply IH].
 Qed.
 
 Theorem gen_wdayset_spec rl ii y m d : gen_wdayset rl ii y m d = wdayset rl ii y m d.
